@@ -180,6 +180,11 @@ func racUF0(name string, a ...*big.Int) *big.Int {
 			return new(big.Int)
 		}
 		return z
+	case "uf_modsqrt":
+		if z.ModSqrt(a[0], a[1]) == nil {
+			return new(big.Int)
+		}
+		return z
 	case "uf_modinv":
 		if a[1].Sign() == 0 || z.ModInverse(a[0], a[1]) == nil {
 			return new(big.Int)
